@@ -515,11 +515,12 @@ func runProperty(prop, tier string, seed uint64) int {
 	}
 	var passes []*passResult
 	var builds []*build
+	nondet := false
 	det := map[string]any{}
 	for i, tc := range tcs {
 		b := doBuild(prop, tc.bin, race, !race)
 		builds = append(builds, b)
-		fmt.Printf("built %s: %d files, %d preemption points, %s, %.1fs\n", prop, len(b.Instr.Files), b.Instr.Points, b.GoVer, b.BuildS)
+		fmt.Printf("built %s: %d files, %d preemption points, %d map ranges seeded, %s, %.1fs %s\n", prop, len(b.Instr.Files), b.Instr.Points, b.Instr.MapRanges, b.GoVer, b.BuildS, b.Instr.MapRangeNote)
 		share := budget
 		if len(tcs) > 1 {
 			if i == 0 {
@@ -538,8 +539,13 @@ func runProperty(prop, tier string, seed uint64) int {
 			ok, detail := determinism(b, prop, seed, n, runs, race)
 			det = detail
 			if !ok {
-				fmt.Printf("HARNESS-NONDETERMINISM %v\n", detail["mismatch"])
-				die2("determinism self-test failed: the simulator is not reproducible, nothing it reports would be believed")
+				// Either the simulator leaks nondeterminism (harness defect) or the
+				// library itself behaves differently from process to process
+				// (e.g. ranges over a map while the map-range seam is off). Go on:
+				// a violation whose replay file reproduces is still a violation;
+				// without one the check ends as undecided (exit 2), never as "held".
+				fmt.Printf("NONDETERMINISM %v\n", detail["mismatch"])
+				nondet = true
 			}
 		}
 		passes = append(passes, runPass(b, prop, seed+uint64(i)*7919, share, nW, race))
@@ -886,6 +892,10 @@ func runProperty(prop, tier string, seed uint64) int {
 	}
 	writeEvidence(prop, ev)
 	fmt.Printf("%s %s: %d runs (%d non-trivial distinct), %d ops, %.0f runs/s, violations=%d, wall %.1fs\n", prop, tier, int64(totalRuns), len(distinct), int64(totalOps), totalRuns/simWall, nViolations, wall)
+	if nondet && exit == 0 {
+		fmt.Printf("HARNESS-NONDETERMINISM: the same seeds gave different runs in different processes and no reproducible violation explains it; undecided\n")
+		return 2
+	}
 	return exit
 }
 
